@@ -5,12 +5,12 @@ import json, subprocess
 claimed = {
  # id: (category, technique, level text, level note, design ref)
  "C16": ("fault_enumeration",
-         "deterministic simulation: complete single-fault sweep (io-error, crash) of each operation's storage-call trace over seeded starting states",
+         "deterministic simulation: complete single-fault sweep (io-error, crash) of each operation's storage-call trace over seeded starting states on SimStore; on real git the k-th git subprocess of the operation fails or the process dies right after it (fault position swept by case number)",
          "Every storage call of every mutating operation (record, annotate, propagation entry, State.Commit, Apply, Attestations.Commit, ReconcileStaging) is failed and crashed in turn from seeded starting states (empty, first-ever, established, staging ahead, policy ahead, diverged, attestations present); log validity is judged by an independent walker, managed-ref consistency and retry-equivalence by comparing with the uninterrupted run, crash verdicts by a cache-less observer on a fork. Complete within each sampled (state, operation); which states are sampled is seeded search.",
          "SimStore stands in for Git storage (Commit split into read/object/compare-and-set as in gitinterface/commit.go); a real-git slice (3 of 16 workers) fails or crashes after the k-th git subprocess of the same operations on a real repository, so gitinterface's own compare-and-set, ResetDueToError and DeleteReference are under test; single-fault model; power-loss of un-fsynced objects is not modelled.",
          "DESIGN.md §6 C16"),
  "C17": ("exploration",
-         "deterministic simulation: seeded scheduler over goroutines parked at every reference operation; independent walker + porcupine linearizability check",
+         "deterministic simulation: seeded scheduler over goroutines parked at every reference operation; independent walker + porcupine linearizability check; real-git slice with one pre-emption at the git-subprocess hook (position swept)",
          "2-3 concurrent recording operations (record, annotate, policy stage, policy apply) plus tip readers run against one repository under seeded interleavings (uniform, PCT-style, single pre-emption) of their reference operations; each operation must fail without trace or succeed with exactly one entry, the final log must be a consecutive single-parent chain every reader walks, and the append/read history must be linearizable against a sequential log (porcupine). Sampled schedules, counted as distinct canonical reference-operation orders.",
          "SimStore's Commit mirrors gitinterface's read-tip/commit-tree/compare-and-set; OS-process races are modelled by goroutines with separate RSL caches, one runnable at a time. A real-git slice (4 of 16 workers) runs two gitinterface handles on one real repository and pre-empts writer A before its k-th git subprocess (k swept 0-15, log empty / 1 / 2 entries) to run writer B, so the real compare-and-set is under test too.",
          "DESIGN.md §6 C17"),
@@ -35,7 +35,7 @@ claimed = {
          "Only the only-if direction is a verdict; first-entry violations and unauthorised fix entries are unspecified here.",
          "DESIGN.md §6 C07"),
  "C11": ("exploration",
-         "deterministic simulation: the identical seeded operation list re-executed under P and under P plus/minus global rules (exact replay makes the two runs comparable); reference model for the direct rule",
+         "deterministic simulation: the identical seeded operation list re-executed under P and under P plus/minus global rules (exact replay makes the two runs comparable); reference model for the direct rule; controller-declared rules on a two-repository real-git engine",
          "C01-style histories whose policies declare, change and remove global threshold and block-force-push rules (matching the verified reference, another one, or everything), with force pushes. Every verification is compared (i) with the model under P+G and (ii) with the same verification in a second execution of the same operations with all global rules stripped: accepting under P+G but not under P is a violation.",
          "SimStore for the repository's own global rules; global rules declared by a controller run in a real-git network slice (controller + network repository, gittuf's own propagation; 3 of 16 workers, rule combinations swept).",
          "DESIGN.md §6 C11"),
@@ -55,12 +55,12 @@ claimed = {
          "SimStore; GitHub API replaced by injected attestations; acceptance is demanded only when no attestation was planted by a non-client.",
          "DESIGN.md §6 C09"),
  "C19": ("exploration",
-         "deterministic simulation: prediction by the real VerifyMergeable, then exact re-execution of the same history once per candidate recorder (a fork of the same state) and full verification of the recorded merge",
+         "deterministic simulation: prediction by the real VerifyMergeable, then exact re-execution of the same history once per candidate recorder (a fork of the same state) and full verification of the recorded merge; real-git slice (copied repositories as forks) for the real merge-tree computation",
          "Seeded branch rules (threshold 1-3, optional global threshold), feature histories ahead of or diverged from the branch, and prior approvals (authorizations and code-review approvals, possibly stale) for the predicted merge; for six candidate recorders (three trusted persons incl. ones already counted, an untrusted person, an outsider key, unsigned) the fast-forward or the pre-built merge commit is recorded and verified, and the outcome is compared with the three-way contract of the prediction.",
          "SimStore's GetMergeTree is a per-path three-way merge stub; a file rule on the feature path is drawn in 30 % of the cases (fast-forward merges compared; a recorded merge commit is itself subject to the rule and not compared).",
          "DESIGN.md §6 C19"),
  "C12": ("exploration",
-         "deterministic simulation: seeded sequences of stage/apply/discard by signers inside and outside the roles with crash leftovers and ref/log tampering written into the store; ref/log state machine plus writer-verifier link",
+         "deterministic simulation: seeded sequences of stage/apply/discard by signers inside and outside the roles with crash leftovers and ref/log tampering written into the store; ref/log state machine plus writer-verifier link; real-git slice sweeping the root-of-trust API with non-root signers",
          "Valid successors (root rotation over several staged steps, thresholds, versions, rules) and successors produced by non-root / non-rule-file keys are staged, applied and discarded in seeded order, with policy/staging refs moved without entries, entries without refs, and non-descendant staging as starting states. A successful Apply must have moved policy to the staged tip (a descendant), appended its entry, and published a state that a fresh LoadCurrentState and full verification accept; Apply must refuse on any ref/entry disagreement and must not move the policy ref when it fails; Discard must restore staging.",
          "SimStore for Apply/Discard/ReconcileStaging; the API clause (root-of-trust changes refused for non-root signers) and Apply of a non-descendant through the real KnowsCommit run in a real-git slice (workers 0-3, every 100th case: 10-14 of 29 root mutators of experimental/gittuf per case, signer kinds and staged-but-unrecorded scenarios swept). SignRoot is not among the calls that must be refused.",
          "DESIGN.md §6 C12"),
